@@ -29,9 +29,16 @@ func TestC10Survey(t *testing.T) {
 	found := map[string]*ent{}
 	n := 0
 	rapid.Check(t, func(rt *rapid.T) {
-		h := genA(rt)
+		var h History
+		var v *core.Violation
+		if os.Getenv("VERIF_C10_SURVEY_SUB") == "c" {
+			h = genC(rt)
+			v = core.Guard(func() *core.Violation { return checkC(h) })
+		} else {
+			h = genA(rt)
+			v = core.Guard(func() *core.Violation { return checkA(h) })
+		}
 		n++
-		v := core.Guard(func() *core.Violation { return checkA(h) })
 		if v == nil {
 			return
 		}
